@@ -220,8 +220,19 @@ fn revcomp(s: &[u8]) -> Vec<u8> {
 }
 
 pub fn run(args: &Args, rep: &mut Report) {
+    std::panic::set_hook(Box::new(|_| {}));
     let miri = cfg!(miri);
     let mut st = Stats { literals: 0, bangs: 0, nruns: 0, matches_len: 0, matches_to_end: 0, neg_delta: 0, equal_ref: 0, code30: 0 };
+    if args.case.as_deref() == Some("pair") {
+        let reference = vcommon::string_to_codes(args.get("ref").unwrap_or(""));
+        let target = vcommon::string_to_codes(args.get("tgt").unwrap_or(""));
+        let mm = args.get_u64("mm", 20) as u32;
+        rep.evaluations += 1;
+        if let Err(w) = check_pair(&reference, &target, mm) {
+            report_violation(rep, args, &w, &reference, &target, mm, "pair");
+        }
+        return;
+    }
     if let Some(c) = &args.case {
         // replay: "rand:<index>"
         if let Some(idx) = c.strip_prefix("rand:").and_then(|s| s.parse::<u64>().ok()) {
